@@ -355,14 +355,14 @@ func genConf(r rng, field string) *sdl.Conf {
 	if (c.Menu == "value" || c.Menu == "valueDef" || c.Menu == "prop") && c.GoType == "int" && r.p(0.3) {
 		c.Keys = []string{pick(r, []string{"gone.a", "gone.b"})}
 	}
-	c.Optional = r.p(0.25)
-	if c.GoType == "int" && r.p(0.5) {
-		c.Validate = pick(r, []string{"min=3", "max=5", "required", "min=2 max=7", "gte=1"})
+	c.Optional = r.p(0.4)
+	if c.GoType == "int" && r.p(0.3) {
+		c.Validate = pick(r, []string{"min=3", "max=5", "required", "min=2 max=7", "gte=1", "gte=0", "max=20"})
 	}
 	if c.GoType == "structV" && c.Validate != "struct" {
 		c.Validate = ""
 	}
-	if c.GoType == "string" && r.p(0.5) {
+	if c.GoType == "string" && r.p(0.3) {
 		c.Validate = pick(r, []string{"eq=va", "required", "ne=vb"})
 	}
 	return c
